@@ -472,6 +472,12 @@ func c14Compare(c *core.Ctx, cs c14Case, prog *parser.Program, fresh, reused c14
 		c.Count("probe_steplimit_both", 1)
 		return true
 	}
+	if strings.Contains(fresh.Stderr, "WaitDelay expired") || strings.Contains(reused.Stderr, "WaitDelay expired") {
+		// goawk abandoned os/exec's output copier 250 ms after a command's exit (overloaded machine):
+		// a wall-clock effect in one of the two runs, not a trace of history
+		c.Count("waitdelay_timing_artefacts_not_judged", 1)
+		return true
+	}
 	if reused.Panic != "" {
 		c.Violation("probe-panic", "", where+": probe panics on the reused interpreter only: "+run.PanicSite(reused.Panic),
 			fresh.String(), reused.Panic, cs)
